@@ -11,7 +11,7 @@
 //
 //	(in <transport> <endpoint-url> <backend> <op>)
 //	(drv (ep <url path>) (answers ..) (ext ..) (tree <node>|-) (dmeta ..))
-//	(obs (calls ..) <outcome>)
+//	(obs (calls ..) <outcome> (stored <bytes>|-))
 //
 // <op>: (stat n) (readdir n rec) (open n) (create n (chunk..)) (rm n) (mkdir n)
 // (copy n d norec noow) (move n d noow).  The (drv ..) part holds what the model takes
@@ -211,6 +211,8 @@ type recFS struct {
 	calls   []string
 	answers []string
 	infos   []webdav.FileInfo // every FileInfo the backend returned (for the codec tables)
+
+	lastCreate string // the name the last Create was given
 }
 
 func (r *recFS) note(call, answer string) {
@@ -292,6 +294,9 @@ func (r *recFS) Create(ctx context.Context, name string, body io.ReadCloser, opt
 	} else {
 		ans = hx.L("ok", hx.B(created))
 	}
+	r.mu.Lock()
+	r.lastCreate = name
+	r.mu.Unlock()
 	r.note(hx.L("create", hx.S(name), hx.S(got.String()), hx.S(string(opts.IfMatch)), hx.S(string(opts.IfNoneMatch))),
 		hx.L("create", hx.S(name), ans))
 	return fi, created, err
@@ -636,7 +641,18 @@ func runCase(c caseIn, dir string) (line string) {
 	}
 	drv := hx.L("drv", hx.L("ep", hx.S(epPath)), hx.L(append([]string{"answers"}, rec.answers...)...), tb.Sx(),
 		hx.L("tree", treeSx), dmetaSx)
-	obs := hx.L("obs", hx.L(append([]string{"calls"}, rec.calls...)...), out)
+	// what a successful Create left on disk (local backend)
+	stored := "-"
+	if local && c.op.Head() == "create" && out == "(done)" {
+		if hp, err := webdav.VerifLocalPath(webdav.LocalFileSystem(dir), rec.lastCreate); err == nil {
+			if b, err := os.ReadFile(hp); err == nil {
+				stored = hx.S(string(b))
+			} else {
+				stored = hx.S("UNREADABLE: " + err.Error())
+			}
+		}
+	}
+	obs := hx.L("obs", hx.L(append([]string{"calls"}, rec.calls...)...), out, hx.L("stored", stored))
 	return in + " " + drv + " " + obs
 }
 
